@@ -308,7 +308,11 @@ def r2(ctx):
         return (auth, ret)
 
     ex = Explorer(g, on_elem=on_elem, on_edge=on_edge)
-    ex.run(g.entry, 0, ('?', '?'))
+    # only the conditions on the user name and on the result decide this rule: correlating the other repeated tests of
+    # this long function multiplies the states without telling anything about them
+    import re as _re
+    ex.corr = set(k for k in ex.corr if any(_re.search(r'(?<![\w.])%s(?![\w])' % _re.escape(x), k) for x in (uname, rname)))
+    ex.run(g.entry, 0, ('?', '?'), max_states=1000000)
     for c in uses:
         n += 1
         ctx.ob('C16.R2', g, c, c not in bad, 'HTTP: levels of the named user', 'used only after checkSecret succeeded (or without '
